@@ -2,12 +2,14 @@ package formatter
 
 import (
 	"strings"
+	"unicode"
 	"unicode/utf8"
 
 	"go.lsp.dev/protocol"
 
 	"github.com/juev/hledger-lsp/internal/ast"
 	"github.com/juev/hledger-lsp/internal/lsputil"
+	"github.com/juev/hledger-lsp/internal/parser"
 )
 
 const defaultIndentSize = 4
@@ -19,6 +21,10 @@ type Options struct {
 	IndentSize         int
 	AlignAmounts       bool
 	MinAlignmentColumn int
+	// SkipLines holds the (0-based) lines the parser reported an error on. A
+	// posting on such a line was understood only in part; it is left as written
+	// instead of being rebuilt from what was understood.
+	SkipLines map[int]bool
 }
 
 func DefaultOptions() Options {
@@ -65,7 +71,9 @@ func FormatDocumentWithOptions(journal *ast.Journal, content string, commodityFo
 		for i := range journal.Transactions {
 			tx := &journal.Transactions[i]
 			for j := range tx.Postings {
-				postingLines[tx.Postings[j].Range.Start.Line-1] = true
+				if line := tx.Postings[j].Range.Start.Line - 1; !opts.SkipLines[line] {
+					postingLines[line] = true
+				}
 			}
 			txEdits := formatTransactionWithOpts(tx, mapper, commodityFormats, globalAccountCol, opts)
 			edits = append(edits, txEdits...)
@@ -87,6 +95,7 @@ func trimTrailingSpacesEdits(content string, mapper *lsputil.PositionMapper, pos
 			continue
 		}
 
+		line = strings.TrimSuffix(line, "\r")
 		trimmed := strings.TrimRight(line, " \t")
 		if len(trimmed) == len(line) {
 			continue
@@ -157,8 +166,11 @@ func formatTransactionWithOpts(tx *ast.Transaction, mapper *lsputil.PositionMapp
 
 	for i := range tx.Postings {
 		posting := &tx.Postings[i]
-		formatted := formatPostingWithOpts(posting, alignment, commodityFormats, indent, opts.AlignAmounts)
 		line := posting.Range.Start.Line - 1
+		if opts.SkipLines[line] {
+			continue
+		}
+		formatted := formatPostingWithOpts(posting, alignment, commodityFormats, indent, opts.AlignAmounts)
 
 		edit := protocol.TextEdit{
 			Range: protocol.Range{
@@ -264,15 +276,9 @@ func calculateAmountCostLen(posting *ast.Posting, commodityFormats map[string]Nu
 
 	length := 0
 
-	if posting.Amount.Commodity.Position == ast.CommodityLeft {
-		length += utf8.RuneCountInString(posting.Amount.Commodity.Symbol)
-	}
-
-	length += utf8.RuneCountInString(formatAmountQuantity(posting.Amount, commodityFormats))
-
-	if posting.Amount.Commodity.Position == ast.CommodityRight {
-		length += 1 + utf8.RuneCountInString(posting.Amount.Commodity.Symbol)
-	}
+	var written strings.Builder
+	writeAmountWithSign(&written, posting.Amount, commodityFormats)
+	length += utf8.RuneCountInString(written.String())
 
 	if posting.Cost != nil {
 		if posting.Cost.IsTotal {
@@ -280,13 +286,9 @@ func calculateAmountCostLen(posting *ast.Posting, commodityFormats map[string]Nu
 		} else {
 			length += 3 // " @ "
 		}
-		if posting.Cost.Amount.Commodity.Position == ast.CommodityLeft {
-			length += utf8.RuneCountInString(posting.Cost.Amount.Commodity.Symbol)
-		}
-		length += utf8.RuneCountInString(formatAmountQuantity(&posting.Cost.Amount, commodityFormats))
-		if posting.Cost.Amount.Commodity.Position == ast.CommodityRight {
-			length += 1 + utf8.RuneCountInString(posting.Cost.Amount.Commodity.Symbol)
-		}
+		written.Reset()
+		writeAmountWithSign(&written, &posting.Cost.Amount, commodityFormats)
+		length += utf8.RuneCountInString(written.String())
 	}
 
 	return length
@@ -366,7 +368,8 @@ func formatPostingWithOpts(posting *ast.Posting, alignment AlignmentInfo, commod
 	}
 
 	if posting.Comment != "" {
-		sb.WriteString("  ; ")
+		// the comment text starts right after the ";" and keeps its own blanks
+		sb.WriteString("  ;")
 		sb.WriteString(posting.Comment)
 	}
 
@@ -375,23 +378,42 @@ func formatPostingWithOpts(posting *ast.Posting, alignment AlignmentInfo, commod
 
 func writeAmountWithSign(sb *strings.Builder, amount *ast.Amount, commodityFormats map[string]NumberFormat) {
 	qty := formatAmountQuantity(amount, commodityFormats)
+	symbol := commodityText(amount.Commodity.Symbol)
 
 	if amount.Commodity.Position == ast.CommodityLeft {
+		// a quoted commodity is kept apart from the number: "AB C" 5
+		gap := ""
+		if symbol != amount.Commodity.Symbol {
+			gap = " "
+		}
 		if amount.SignBeforeCommodity && len(qty) > 0 && (qty[0] == '-' || qty[0] == '+') {
 			sb.WriteByte(qty[0])
-			sb.WriteString(amount.Commodity.Symbol)
+			sb.WriteString(symbol)
+			sb.WriteString(gap)
 			sb.WriteString(qty[1:])
 		} else {
-			sb.WriteString(amount.Commodity.Symbol)
+			sb.WriteString(symbol)
+			sb.WriteString(gap)
 			sb.WriteString(qty)
 		}
 	} else {
 		sb.WriteString(qty)
-		if amount.Commodity.Symbol != "" {
+		if symbol != "" {
 			sb.WriteString(" ")
-			sb.WriteString(amount.Commodity.Symbol)
+			sb.WriteString(symbol)
 		}
 	}
+}
+
+// commodityText returns the symbol as it must be written: in double quotes
+// when it contains anything but letters and currency signs.
+func commodityText(symbol string) string {
+	for _, r := range symbol {
+		if !unicode.IsLetter(r) && !unicode.Is(unicode.Sc, r) {
+			return "\"" + symbol + "\""
+		}
+	}
+	return symbol
 }
 
 // formatAmountQuantity returns formatted quantity string.
@@ -402,12 +424,24 @@ func formatAmountQuantity(amount *ast.Amount, commodityFormats map[string]Number
 	}
 	if commodityFormats != nil {
 		// First try specific commodity format
-		if format, ok := commodityFormats[amount.Commodity.Symbol]; ok {
-			return FormatNumber(amount.Quantity, format)
+		format, ok := commodityFormats[amount.Commodity.Symbol]
+		if !ok {
+			// Then try default format (stored under empty key)
+			format, ok = commodityFormats[""]
 		}
-		// Then try default format (stored under empty key)
-		if format, ok := commodityFormats[""]; ok {
-			return FormatNumber(amount.Quantity, format)
+		if ok {
+			// A display format pads with zeros; it must not remove digits the
+			// amount carries, which would change the amount.
+			if scale := int(-amount.Quantity.Exponent()); scale > 0 && (!format.HasDecimal || scale > format.DecimalPlaces) {
+				format.HasDecimal = true
+				format.DecimalPlaces = scale
+			}
+			formatted := FormatNumber(amount.Quantity, format)
+			// Use the display format only if the result still reads as the same
+			// number: without knowing the format, "1,500" is read as 1500.
+			if readBack, err := parser.ParseNumber(formatted); err == nil && readBack.Equal(amount.Quantity) {
+				return formatted
+			}
 		}
 	}
 	if amount.RawQuantity != "" {
